@@ -38,6 +38,45 @@ class LimitsDriver(ClientDriver):
                 w.daemon.known_txs[t.hash] = t
         self.hmax = max(getattr(self, 'hmax', -1), tip.height)
 
+    def op_thin_fork(self, op):
+        """Replace the last `depth` thin blocks by depth+1 others."""
+        w = self.w
+        chain = w.daemon.chain()
+        depth = min(op['depth'], w.k['reorg_limit'], len(chain) // 2)
+        base = chain[len(chain) - 1 - depth]
+        w.daemon.tip = base
+        w.daemon._chain = base.branch()
+        self.op_thin(dict(n=depth + 1, seed=op['seed']))
+        self.probe('c17.thin_fork')
+
+    def op_headers_window(self, op):
+        """Headers requests spanning the tip, repeated while the reorganisation is in progress."""
+        w = self.w
+        d = w.daemon
+        rng = random.Random(op['seed'])
+        c = self.client(0)
+        if not self.ensure_connected(c):
+            return
+        for _ in range(40):
+            if w.server is None:
+                return
+            h = w.server.db.state.height
+            s = max(0, h - rng.choice([0, 1, 2, 5, 30]))
+            n = rng.choice([1, 3, 10, 60, 3000])
+            r = self.ask(c, 'blockchain.block.headers', [s, n])
+            self.probe('c17.headers_window_requests')
+            if r is not None and 'result' in r:
+                res = r['result']
+                nhex = len(res['hex']) // 160
+                if res['count'] != nhex:
+                    self.violate('C17', 'headers.count_untruthful', f'({s},{n}) during a reorganisation: count '
+                                 f'{res["count"]} but {nhex} headers in hex')
+                if nhex > min(n, MAX_CHUNK):
+                    self.violate('C17', 'headers.more_than_requested', f'({s},{n}): {nhex}')
+            w.run(None, rng.choice([0.0, 0.05, 0.3, 1.0]))
+            if w.caught_up() and rng.random() < 0.3:
+                break
+
     def quiesce(self, limit=None):
         return super().quiesce(limit or 3000.0)
 
@@ -169,6 +208,14 @@ class LimitsDriver(ClientDriver):
                 self.violate('C17', 'subscription.truncated_status', f'the subscriber received status '
                              f'{params[1][:16]} which is not the status of the full history at any height '
                              f'(history {n}, limit {limit})')
+        # a refused subscription must not exist: no notification for the script may follow a refusal
+        for c, ev0 in list(getattr(self, 'refused', {}).items()):
+            late = [e for e in c.notifs if e[0] > ev0 and e[1] == 'blockchain.scripthash.subscribe'
+                    and e[2] and e[2][0] == XSH]
+            if late and c.connected:
+                self.violate('C17', 'subscription.not_dropped', f'client {c.name} was refused the subscription '
+                             f'("history too large") but later received {len(late)} notification(s) for that '
+                             f'script: {late[0][2][1]}')
         fresh = w.new_client('fresh17', addr=('8.7.7.7', None))
         self.ensure_connected(fresh)
         for c in (self.client(1), fresh):
@@ -194,6 +241,9 @@ class LimitsDriver(ClientDriver):
             elif r is None or 'error' not in r:
                 self.violate('C17', 'subscribe.truncated_status', f'{c.name}: subscribe to a script with a '
                              f'history of {n} >= limit {limit} answered {str(r)[:80]}')
+            elif c is not fresh:
+                self.refused = getattr(self, 'refused', {})
+                self.refused.setdefault(c, r['ev'])
         fresh.disconnect()
 
     def check_subscribers(self, refmp):
@@ -240,6 +290,11 @@ class LimitsFamily(SubsFamily):
             # while the tip still moves
             plan.append(dict(op='thin', n=rng.randint(1, 30), seed=rng.getrandbits(32)))
             plan.append(dict(op='headers_grid', seed=rng.getrandbits(32), n=15, ncp=6))
+            if rng.random() < 0.6:
+                # ... and while blocks are being undone (stale bytes beyond the live end of the file)
+                plan.append(dict(op='settle'))
+                plan.append(dict(op='thin_fork', depth=rng.choice([1, 2, 3, 5]), seed=rng.getrandbits(32)))
+                plan.append(dict(op='headers_window', seed=rng.getrandbits(32)))
             plan.append(dict(op='settle'))
             plan.append(dict(op='headers_grid', seed=rng.getrandbits(32), n=20, ncp=10))
             return dict(family='limits', knobs=k, plan=plan)
